@@ -360,7 +360,10 @@ class SimKernel:
         if sig == real_signal.SIGKILL:
             self.armed.append((pid, int(real_signal.SIGKILL)))
         elif sig == real_signal.SIGTERM:
-            if not pol.get("ignore_term"):
+            if pol.get("boot_time") and self.now < pr.born + pol["boot_time"]:
+                # the child has not installed its own handlers yet: the signal is swallowed by the handler it inherited
+                self.log.append((self.now, "term_lost_during_boot", pid))
+            elif not pol.get("ignore_term"):
                 d = pol.get("term_delay", 0.0)
                 if d <= 0:
                     self.armed.append((pid, 0))
@@ -615,6 +618,8 @@ def run_history(scenario, schedule, lines=True):
     cfg.set("timeout", scenario.get("timeout", 30))
     cfg.set("graceful_timeout", scenario.get("graceful_timeout", 5))
     cfg.set("worker_class", SimWorker)
+    if scenario.get("reuse_port"):
+        cfg.set("reuse_port", True)
     cfg.set("logger_class", SimLogger)
     app = SimApp(k, cfg)
     saved = {n: getattr(arb_mod, n) for n in ("os", "time", "select", "signal", "random", "sock", "systemd")}
